@@ -422,6 +422,9 @@ package fpgo
 //@   requires askSelf != nil && askSelf.ch != nil && !untyped(target)
 //@   ensures asked: tr_len >= old(tr_len)+2 && tr_kind[old(tr_len)] == 2 && tr_recv[old(tr_len)] == target && tr_fn[old(tr_len)] == method("ActorHandle.Send") && tr_arg[old(tr_len)] == boxed(askSelf)
 //@   ensures answered: r1 == nil ==> tr_len == old(tr_len)+3 && tr_kind[old(tr_len)+1] == 7 && tr_obj[old(tr_len)+1] == askSelf.ch && r0 == tr_res[old(tr_len)+1] && tr_kind[old(tr_len)+2] == 6 && tr_obj[old(tr_len)+2] == askSelf.ch
+// the timer is armed with exactly the caller's timeout on every path (time.After is an opaque library call; After_arg0 is the
+// argument of its latest call) - a variant that waits without a timer for some timeouts does not bind this clause there
+//@   ensures@body timer-armed-with-the-given-timeout: After_arg0 == timeout
 //@   ensures timed-out-clean: r1 != nil ==> r1 == ErrActorAskTimeout && r0 == zeroof(r0) && tr_len == old(tr_len)+2 && forall(k, old(tr_len), tr_len, tr_kind[k] != 6)
 
 // ===================================================================================================
